@@ -2,6 +2,7 @@ package server
 
 import (
 	"context"
+	"sort"
 	"strings"
 
 	"go.lsp.dev/protocol"
@@ -15,18 +16,27 @@ func (s *Server) WorkspaceSymbol(ctx context.Context, params *protocol.Workspace
 
 	var symbols []protocol.SymbolInformation
 
+	// Visit documents in URI order so the result does not depend on map iteration order.
+	contents := make(map[protocol.DocumentURI]string)
+	var uris []string
 	s.documents.Range(func(key, value any) bool {
 		uri := key.(protocol.DocumentURI)
-		content := value.(string)
+		contents[uri] = value.(string)
+		uris = append(uris, string(uri))
+		return true
+	})
+	sort.Strings(uris)
 
-		journal, _ := parser.Parse(content)
+	for _, u := range uris {
+		uri := protocol.DocumentURI(u)
+
+		journal, _ := parser.Parse(contents[uri])
 		if journal == nil {
-			return true
+			continue
 		}
 
 		symbols = append(symbols, extractSymbols(journal, uri, query)...)
-		return true
-	})
+	}
 
 	return symbols, nil
 }
